@@ -166,5 +166,8 @@ func (env *Env) Define(toks []string) error {
 }
 
 // AddEnum / AddStruct register definitions built in Go.
-func (env *Env) AddEnum(e *EnumDef)     { env.Enums[e.Name] = e; env.Order = append(env.Order, e.Line()) }
-func (env *Env) AddStruct(s *StructDef) { env.Structs[s.Name] = s; env.Order = append(env.Order, s.Line()) }
+func (env *Env) AddEnum(e *EnumDef) { env.Enums[e.Name] = e; env.Order = append(env.Order, e.Line()) }
+func (env *Env) AddStruct(s *StructDef) {
+	env.Structs[s.Name] = s
+	env.Order = append(env.Order, s.Line())
+}
